@@ -54,7 +54,7 @@ TEXTS = {
         "technique": "Lean 4 theorems about an executable model of the element tree / path index / reverse reference map and its editing "
                      "operations; differential run of the model against the library on operation histories with full state dumps; direct "
                      "property oracle on the library",
-        "level_text": 'Proved for all trees: the primitive edits (insert, remove, modify) keep the parent fields in step with the structure; navigation from the root sees exactly the structural ancestors and ends at the requested node; the invariant is preserved at operation level for text items and comments. The other operations, the iterators and stale handles are covered by the correspondence run (every parent field is in every dump) and by the oracle on the real library.',
+        "level_text": 'Proved, invariant by induction over operations: in EVERY state reachable from the empty world by ANY history of the core operations (new model, create_file, create / create_named with position, remove, set / remove character data, set / set-string / remove attribute, comment, insert / remove text item, add_to_file, remove_from_file, remove_file, set_version) the parent fields agree with the tree structure in every model; the driver answers these requests with the very step function the theorem is about. Navigation from the root sees exactly the structural ancestors. Rename, move, copy, sort, references and loading are compared with the library after every request (dumps include every parent field); iterators and stale handles are decided by the oracle on the library: partial.',
         "level_note": "Trusted: Lean kernel; axioms propext, Classical.choice, Quot.sound; the hand model is tied to the Rust code by the "
                       "correspondence run only (244 of 300 quick histories are compared to the end, the others up to the first file-set "
                       "operation / move between models). " + 'Partial: World.wf preservation is a theorem for 3 operations only.',
@@ -120,7 +120,7 @@ TEXTS = {
     "C10": {
         "design_ref": 'DESIGN.md §8 C10',
         "technique": 'Lean 4 theorems about an executable model of the element tree / file sets / copy / sort and its operations; differential run of the model against the library on operation histories with full state dumps; direct property oracle on the library',
-        "level_text": "Proved for all trees and arguments: the invariant 'every local file set lies within the effective set of the parent' is preserved by create_file, add_to_file (induction along the upward walk of add_to_file_restricted), remove_from_file, remove_file, remove_sub_element and create_sub_element; inheritance of the effective set; every element of a model whose root is in a file is in some file. The models of these operations answer the mkfile / addfile / rmfromfile / rmfile requests and are compared with the library on full dumps. Self-contained file texts and the exactness of remove_file are decided by the oracle (files histories incl. load, merge scenario): partial.",
+        "level_text": 'Proved, invariant by induction over operations: in EVERY state reachable by ANY history of the core operations (create_file, add_to_file with the upward walk of add_to_file_restricted, remove_from_file, remove_file, element creation and removal, value / attribute / comment / text edits, set_version) every local file set lies within the effective set of the parent; inheritance of the effective set; every element of a model whose root is in a file is in some file. The models of these operations answer the requests of the run and are compared with the library on full dumps. Self-contained file texts and the exactness of remove_file are decided by the oracle (files histories incl. load, merge scenario): partial.',
         "level_note": 'Trusted: Lean kernel; axioms propext, Classical.choice, Quot.sound. Not preserved by the library (known findings): move keeps the file sets of descendants, add_to_file accepts a removed file, SHORT-NAME with a set of its own.',
     },
     "C12": {
